@@ -95,11 +95,13 @@ def build_jobs(run, recl_default):
 
     # reference: every target once, canonical order, one thread
     job("reference", list(T))
-    # (i) twice in one process
-    tw = []
-    for t in T:
-        tw += [t, t]
-    job("twice", tw)
+    # (i) twice in one process (two processes, to bound the length of one history)
+    half = len(T) // 2
+    for part in (T[:half], T[half:]):
+        tw = []
+        for t in part:
+            tw += [t, t]
+        job("twice", tw)
     # (ii) after unrelated fits / predicts of other families, shuffled; also with 8 threads
     for j in range(run.n(2, 6)):
         ops = list(T) + ([CT[0]] if j == 0 else [])
@@ -122,14 +124,15 @@ def build_jobs(run, recl_default):
         if rng.random() < (0.6 if run.quick() else 1.0):
             ops += [{"op": "rng", "k": rng.randrange(0, 2**31), "n": rng.choice([0, 1, 7, 100])}, t]
     ops += [{"op": "rng", "k": k_un, "n": n_un}, fit("hourly", dsh[0], "default", None)]
-    # a second unseeded fit without reseeding: the generator has moved by exactly one randint
+    # a second unseeded fit without reseeding: the generator has moved by exactly two randints (construction, to_json)
     k2 = rng.randrange(0, 2**31)
     r2 = np.random.RandomState(k2)
     d1 = int(r2.randint(0, 2**32 - 1, dtype=np.int64))
+    r2.randint(0, 2**32 - 1, dtype=np.int64)        # as coded: to_json() of the unseeded model draws once more
     d2 = int(r2.randint(0, 2**32 - 1, dtype=np.int64))
     ops += [{"op": "rng", "k": k2, "n": 0}, fit("hourly", dsh[1], "default", None), fit("hourly", dsh[1], "default", None)]
     draws.append(((k2, 0), d1))
-    draws.append(((k2, 0, "randint"), d2))
+    draws.append(((k2, 0, "randint", "randint"), d2))
     jobs_extra_targets = [fit("hourly", dsh[1], "default", d2)]
     job("rng-perturbed", ops)
     jobs[0]["ops"] = jobs[0]["ops"] + jobs_extra_targets
@@ -139,6 +142,8 @@ def build_jobs(run, recl_default):
         job("fresh-single", [t], threads=(1, 8)[i % 2])
     # (v) simultaneous identical workers, many threads each
     conc = [fit("daily", dsd[0]), fit("hourly", dsh[0], "default", sd), fit("billing", dsb[0]), fit("hourly", dsh[0], "randsel", sd)]
+    if run.quick():
+        conc = conc[:3]
     for c in range(run.n(4, 16)):
         job("concurrent", list(conc), threads=8, group="conc")
     # reference history again with 8 threads (every target under both pool sizes)
@@ -149,9 +154,10 @@ def build_jobs(run, recl_default):
     # cold numba cache
     job("cold-jit", [fit("daily", dsd[1]), fit("billing", dsb[1])], cold=True)
     # CalTRACK hourly: fresh with 1 and with 8 threads, and (above) inside the first shuffled history
+    # (quick: 2 threads instead of 8 -- a LAPACK-heavy fit with 8 spinning BLAS threads on a shared machine takes minutes)
     for ct in CT:
         job("caltrack-fresh", [ct], threads=1)
-        job("caltrack-threads8", [ct], threads=8)
+        job("caltrack-threads", [ct], threads=run.n(2, 8))
     if thorough:
         job("caltrack-twice", [CT[0], fit("daily", dsd[0]), CT[0]], threads=1)
     return jobs, draws
@@ -325,7 +331,7 @@ def coq_draw_table(draws):
         evs = ["EvSeed %s" % zlit(key[0])]
         if key[1]:
             evs.insert(0, "EvRandom %s" % zlit(key[1]))
-        if len(key) > 2:
+        for _ in key[2:]:
             evs.insert(0, "EvRandint")
         rows.append("({| r_origin := 0; r_evs := [%s] |}, %s)" % ("; ".join(evs), zlit(val)))
     return "Definition tbl : list (rng * Z) := %s." % coq_list(rows)
@@ -357,10 +363,10 @@ def main():
         "sklearn contract: PCA(n_components=ratio) uses the exact full SVD; an integer random_state makes ElasticNet / "
         "BisectingKMeans deterministic functions of their input",
     ]
-    # ---- step 0: translator
+    # ---- step 0: translator (extraction now, the file is written under the build lock below)
     ex = None
     try:
-        ex = translate_repro.generate(run)
+        ex = translate_repro.extract()
         run.sample({"translator": {"consumer_sites": [(s["file"].split("/")[-1], s["line"], s["callee"], s["src"]) for s in ex["sites"]],
                                    "rng_uses": [(u["file"].split("/")[-1], u["line"], u["call"], u["guard"]) for u in ex["uses"]],
                                    "bindings": ex["bindings"], "assigns": [(a["owner"], a["guard"], a["src"]) for a in ex["assigns"]],
@@ -371,19 +377,8 @@ def main():
         run.proof_ok = False
         run.proof_log += "\ntranslator (harness/translate_repro.py) could not read the source: %s" % e
         run.log("TRANSLATOR FAILED: %s" % e)
-    # ---- step 1: proofs
-    if ex is not None:
-        run.check_proofs("Properties/C03.v", ["Proofs/ReproProofs.v"], generated=["Generated/ReproGen.v"])
-    run.ensure_models(["Model/ReproRun.v", "Model/CasesLib.v"])
     recl_default = ex["hourly"]["recluster_default"] if ex else 3
-    # source-level finding (refuted theorem C03_seed_reaches_every_consumer_in_source_refuted): still there?
-    if ex is not None:
-        for s in ex["sites"]:
-            if s["callee"] == "silhouette_score" and s["src"] in (("SAbsent",), ("SNone",)) and not s["dead"]:
-                run.log("source finding (not a violation of the statement on any sampled input): %s:%d silhouette_score(sample_size=..) "
-                        "without random_state draws from numpy's global generator during a seeded hourly fit when "
-                        "temporal_cluster.score_metric='silhouette'" % (s["file"], s["line"]))
-    # ---- step 2: histories
+    # ---- step 2a: the histories start now and run while the proofs are re-checked
     if run.replay:
         rep = json.load(open(run.replay))
         jobs = [dict(j, group=None) for j in rep["case"].get("jobs", [])]
@@ -393,8 +388,30 @@ def main():
             jobs, draws = build_jobs(run, recl_default)
     else:
         jobs, draws = build_jobs(run, recl_default)
+    if os.environ.get("C03_ONLY"):          # development aid: run some contexts only
+        keep = os.environ["C03_ONLY"].split(",")
+        jobs = [j for j in jobs if j["label"] in keep]
     run.log("%d histories, %d operations" % (len(jobs), sum(len(j["ops"]) for j in jobs)))
-    results = execute(run, jobs)
+    bg = ThreadPoolExecutor(1)
+    fut = bg.submit(execute, run, jobs)
+    # ---- step 1: proofs
+    if ex is not None:
+        run.write_generated(translate_repro.OUT, translate_repro.render(ex))
+        run.check_proofs("Properties/C03.v", ["Proofs/ReproProofs.v"], generated=["Generated/ReproGen.v"])
+    run.ensure_models(["Model/ReproRun.v", "Model/CasesLib.v"])
+    run.log("proofs re-checked: %s" % ("ok" if run.proof_ok else "FAILED"))
+    # source-level finding (refuted theorem C03_seed_reaches_every_consumer_in_source_refuted): still there?
+    if ex is not None:
+        for s in ex["sites"]:
+            if s["callee"] == "silhouette_score" and s["src"] in (("SAbsent",), ("SNone",)) and not s["dead"]:
+                run.log("source finding (not a violation of the statement on any sampled input): %s:%d silhouette_score(sample_size=..) "
+                        "without random_state draws from numpy's global generator during a seeded hourly fit when "
+                        "temporal_cluster.score_metric='silhouette'" % (s["file"], s["line"]))
+    # ---- step 2b: collect
+    results = fut.result()
+    bg.shutdown()
+    if os.environ.get("C03_DEBUG"):
+        json.dump({"jobs": jobs, "results": results, "draws": draws}, open(os.environ["C03_DEBUG"], "w"), indent=1)
     run.log("histories executed (max wall of one history %.0fs)" % max(r.get("wall", 0) for r in results))
     dead = [(j, r) for j, r in zip(jobs, results) if "error" in r]
     if dead:
